@@ -407,9 +407,10 @@ def argmax(ctx, F):
         return
     popped = ('call', 'Vec::pop', tuple(pops[0][1]), pops[0][0])
     node, a_, c_ = ('field', popped, '0'), ('field', popped, '1'), ('field', popped, '2')
-    init = [p for p in pushes if not any(is_call(x, 'Vec::pop') for x in walk(p[1][1]))]
+    # initial work items: pushes that do not depend on a popped entry, or the elements of a `vec![..]` the stack starts from
+    init = [p[1][1] for p in pushes if not any(is_call(x, 'Vec::pop') for x in walk(p[1][1]))] + prune.vec_literal_elements(b, R, pops[0][1][0])
     r = root[0]
-    if not (is_call(r, 'AffFuncBase::subtraction') and len(init) == 1 and init[0][1][1] == ('agg', 'tuple', (('const', 0), r[2][1], r[2][2])) and r[2][1] == ('const', 1) and r[2][2] == ('const', 0)):
+    if not (is_call(r, 'AffFuncBase::subtraction') and len(init) == 1 and init[0] == ('agg', 'tuple', (('const', 0), r[2][1], r[2][2])) and r[2][1] == ('const', 1) and r[2][2] == ('const', 0)):
         problems.append('root predicate / initial work item are not (x_1 - x_0 <= 0, candidate 1, current maximum 0)')
     nxt = ('field', ('bin', 'AddWithOverflow', a_, ('const', 1)), '0')
     dec = [(bb, a, l) for bb, a, l in adds if is_call(a[3], 'AffFuncBase::subtraction')]
